@@ -197,6 +197,14 @@ def _toy_mcmc(r):
                 if r.get("adapt_end"):
                     ad["end"] = r["adapt_end"]
             ops.append(op)
+    if r.get("view_op"):
+        # operators attached to views of plain parameters (the CLI creates such views for SRD06)
+        spec.insert(0, {"id": "xv", "type": "ViewParameter", "parameter": scenes.param("x", [0.3 * (i + 1) for i in range(dim)], dt), "indices": "0:%d" % max(1, dim - 1)})
+        spec[1]["distributions"][0]["x"] = "x"
+        spec.insert(1, {"id": "sv", "type": "ViewParameter", "parameter": scenes.param("s", [1.2, 0.7], dt), "indices": "1:2"})
+        spec[2]["distributions"][1]["x"] = "s"
+        ops.append(dict({"id": "op.xv", "type": "SlidingWindowOperator", "parameters": "xv", "weight": 1.5, "width": 0.6}, **common))
+        ops.append(dict({"id": "op.sv", "type": "ScalerOperator", "parameters": "sv", "weight": 1.0, "scaler": 0.6}, **common))
     if r.get("transformed_op"):
         ops.append(dict({"id": "op.y", "type": "ScalerOperator", "parameters": "y", "weight": 1.0, "scaler": 0.7}, **common))
     ts = r.get("tune_scale")
